@@ -61,6 +61,11 @@ let ev_s (e : tev) =
   | TComp c -> Printf.sprintf "C%d:%d:%d:%s:f%d" (int_of_n c.c_id) (int_of_n c.c_kind)
                  (int_of_n c.c_reply.r_status) (resp_s c.c_reply) (int_of_n c.c_reply.r_frames)
   | TDiscCb (did, run) -> Printf.sprintf "K%d@%d" (int_of_n did) (int_of_n run)
+let comp_s (c : comp) =
+  Printf.sprintf "%d:%d:%d:%s" (int_of_n c.c_id) (int_of_n c.c_kind) (int_of_n c.c_reply.r_status)
+    (match c.c_reply.r_resp with None -> "n"
+     | Some rs -> Printf.sprintf "%d:%s" (int_of_n rs.rs_type) (rle rs.rs_data))
+let comps_s (l : comp list) = match l with [] -> "." | _ -> String.concat "," (List.map comp_s l)
 let trace_s (s : st) = match s.g_trace with [] -> "." | l -> String.concat "," (List.map ev_s l)
 let int_s (s : st) =
   Printf.sprintf "%s.%s.%d.%s.%d.%d.%d" (bool01 s.s_pending) (bool01 s.s_active) (List.length s.s_queue)
@@ -88,7 +93,7 @@ let handle (p : string) : string =
           | None -> oof := true; s
           | Some s' -> tr := trace_s s' :: !tr; it := int_s s' :: !it; s') s0 ops in
     let sawresp = s.s_resp <> None in
-    let fin = destroy s in
+    let fin = match destroy_run s with Some f -> f | None -> (oof := true; s) in
     tr := trace_s fin :: !tr;
     let done_ = fin.g_done in
     let ooo = if sorted_lt (accepted_ids done_) then 0 else 1 in
@@ -105,10 +110,10 @@ let handle (p : string) : string =
         (if fin.g_runs <> [] then "+runs" else "")
         (if nops <= 5 then "short" else if nops <= 12 then "mid" else "long") in
     ignore sawresp;
-    Printf.sprintf "t=%s;i=%s;conc=%d;ps=%d;dup=%d;ooo=%d;bad=%d;lost=%d;rj=%d;dv=%d%s%s;class=%s"
+    Printf.sprintf "t=%s;i=%s;conc=%d;ps=%d;dup=%d;ooo=%d;bad=%d;lost=%d;rj=%d;dv=%d;comp=%s%s%s;class=%s"
       (String.concat "/" (List.rev !tr)) (String.concat "/" (List.rev !it))
       (int_of_n fin.g_conc) (int_of_n fin.g_psends) (int_of_nat (dups done_)) ooo
-      (int_of_nat (bad_data done_)) (int_of_nat (lost fin)) (int_of_n fin.g_rj) (int_of_nat (dv_of fin))
+      (int_of_nat (bad_data done_)) (int_of_nat (lost fin)) (int_of_n fin.g_rj) (int_of_nat (dv_of fin)) (comps_s done_)
       (if !oof then ";oof=1" else "") (if fin.g_fatal then ";fatal=1" else "") cls
   | _ -> "bad-payload"
 let () = vh_run handle
